@@ -26,6 +26,7 @@ class Inconclusive(Exception):
 # (module file relative to the repo, harness file, module name)
 MODULES = [
     ("src/query/view/claim.rs", "claim.rs", "verif_kani"),
+    ("src/entity/allocator/mod.rs", "alloc.rs", "verif_kani"),
 ]
 
 # (file, regex matching the line of the `fn`, attribute lines to insert directly above it)
@@ -105,15 +106,20 @@ def run_kani(dst, filters, jobs=8, timeout=1500, harness_timeout=None, extra=Non
         res["compile_error"] = (m.group(0) if m else "no JSON export produced") if rc != -9 else "timeout"
         return res
     details = {d["harness_id"]: d["property_details"] for d in js.get("property_details", [])}
-    stats = {d["harness_id"]: d.get("cbmc_stats", {}) for d in js.get("cbmc", [])}
+    stats = {d["harness_id"]: (d.get("cbmc_stats") or {}) for d in js.get("cbmc", [])}
     for r in js.get("verification_results", {}).get("results", []):
         hid = r["harness_id"]
+        if r.get("status") not in ("Success", "SUCCESS") and not r.get("checks"):
+            res["harnesses"][hid] = {"status": r.get("status"), "total": 0, "failed_checks": [], "inconclusive_checks":
+                                     [{"description": f"no result ({r.get('status')}: timeout, out of memory or crash)"}],
+                                     "vacuous_covers": [], "solver_s": 0.0, "symex_s": 0.0, "duration_ms": r.get("duration_ms")}
+            continue
         failed = [c for c in r.get("checks", []) if c.get("status") in ("Failure", "FAILURE", "Failed")]
         undet = [c for c in r.get("checks", []) if c.get("status") in ("Undetermined", "UNDETERMINED")]
         covers_unsat = [c for c in r.get("checks", []) if c.get("category") == "cover" and c.get("status") not in ("Satisfied", "SATISFIED")]
         inconc = [c for c in failed if any(m in (c.get("description") or "") for m in INCONCLUSIVE_MARKS)]
         real = [c for c in failed if c not in inconc]
-        st = stats.get(hid, {})
+        st = stats.get(hid) or {}
         res["harnesses"][hid] = {
             "status": r.get("status"),
             "duration_ms": r.get("duration_ms"),
